@@ -1,7 +1,7 @@
 (* C13 — Building from several sources is compositional; extension placement does not matter.
    Property theorems only.  Model: Schema/Build.v (SchemaBuilder of schema/from_ast.rs). *)
 From ApolloVerif Require Import Base.Chars Ast.Ast Schema.Model Schema.Build Schema.Canon Schema.Builtin
-  Schema.BuildProofs Schema.CommuteProofs.
+  Schema.BuildProofs Schema.CommuteProofs Schema.TotalProofs.
 From Coq Require Import Permutation.
 
 (* the builder is a fold over definitions: adding the documents d1 ++ d2 one after another is adding d1,
@@ -54,6 +54,13 @@ Check C13_extension_adjacent : forall cfg b0 pre e d post,
   sb_extends e d = true ->
   sb_result_perm (sb_build cfg b0 (pre ++ e :: d :: post)) (sb_build cfg b0 (pre ++ d :: e :: post)).
 Print Assumptions C13_extension_adjacent.
+
+(* the asserts / unwraps / `unreachable!()` of build_inner and adopt_type_extensions are unreachable: the
+   builder returns a schema and an error list for every list of documents, in both configurations *)
+Theorem C13_builder_total : forall cfg b0 docs, sb_build_docs cfg b0 docs <> SbPanic.
+Proof. exact sb_build_total. Qed.
+Check C13_builder_total : forall cfg b0 docs, sb_build_docs cfg b0 docs <> SbPanic.
+Print Assumptions C13_builder_total.
 
 (* No model of ExecutableDocumentBuilder::add_ast_document: the second half of the first sentence of the
    property (executable documents from several sources) is checked on the implementation only. *)
